@@ -1,12 +1,12 @@
 /-
 Model of tm2/pkg/bft/types/vote_set.go (VoteSet, blockVotes), written line by
-line after the Go code.  Core Lean only.
+line after the Go code.  Core Lean only.  Go slices are `List`s here (`votes[i]` = `at? votes i`).
 
 What is abstract:
 * a `BlockID` is `(key, tag)`: `key` stands for `BlockID.Key()` (the map key of
   `votesByBlock`), `tag` distinguishes BlockIDs that have the same `Key()` —
   `Key()` is `string(Hash) ++ amino(PartsHeader)` and is NOT injective (see
-  `Props/C35.lean`, `key_collision_*`).  `BlockID.Equals` is structural equality.
+  `Props/C35.lean`, `conflict_reported_counterexample`, `maj23_block_counterexample`).  `BlockID.Equals` is structural equality.
 * a signature is an identity `sig : Nat` (two votes carry equal signature bytes
   iff the ids are equal) plus `sigOk : Bool` = `vote.Verify(chainID, val.PubKey)`
   succeeds for the validator at `vote.ValidatorIndex`.
